@@ -92,3 +92,12 @@ CLAIMED["C01"] = (
     "Trusted: A-enc, A-smt, A-struct. Not under contract: the other export mixins' collect_data/disassemble_image, relocation tables (design-time "
     "finding #16, not checked here), TrustZone/key-store contents, certificate blocks (C03), config/CLI front ends.",
     "DESIGN.md 7 C01")
+CLAIMED["C02"] = (
+    "Two ROM-side facts are discharged from the real bodies for all keys and data: Mbi_MixinHmac.compute_hmac is HMAC-SHA256 under "
+    "AES-ECB(user key, 0^16) (or empty without key), and Mbi_ExportMixinAppTrustZoneCertBlockEncrypt.encrypt applies AES-CTR with the stored IV "
+    "under the key the ROM derives — AES-ECB(user key, 01 0^15 02 0^15) unless a KEYSTORE key store supplies the key — in both directions; the "
+    "key derivations and CRC parameters themselves are proved in C09. The CRC word is checked by a bounded independent CRC over every key-less "
+    "CRC composition of the live database. Signature coverage, certificate chains, manifests and HMAC splicing are NOT decided here.",
+    "Trusted: primitives as uninterpreted functions (A-crypto-fun); 'tampering is detected' rests on them (A-crypto-sec, not claimed); A-enc, A-smt. "
+    "Mbi_ExportMixinRsaSign/EccSign.sign, finalize (HMAC/key-store splice), post_encrypt, manifest mixins and CertBlockV1 are not under contract.",
+    "DESIGN.md 7 C02")
